@@ -344,9 +344,15 @@ func runScenario(t *testing.T, sc *Scenario) *Result {
 		return res
 	}
 	wall := realtime.Now()
-	root, err := realos.MkdirTemp("/dev/shm", "slocksim-")
+	// the directory name shows up in replies of the code under test (INFO): it has the same length
+	// in every run of a seed, so that reply sizes (and with them read fragmentation) do not vary
+	name := fmt.Sprintf("slocksim-%020d-%08d", sc.Seed, realos.Getpid())
+	root := filepath.Join("/dev/shm", name)
+	err := realos.Mkdir(root, 0755)
 	if err != nil {
-		root, err = realos.MkdirTemp("", "slocksim-")
+		root = filepath.Join(realos.TempDir(), name)
+		_ = realos.RemoveAll(root)
+		err = realos.Mkdir(root, 0755)
 	}
 	if err != nil {
 		res.Outcome, res.HarnessErr = "harness_error", err.Error()
